@@ -61,18 +61,22 @@ struct Inst {
     /// length of the mapping the library made for this region
     map_len: usize,
     ptr: usize,
+    /// the mmap log entries [log_start, born) were made while the library created this region
+    log_start: usize,
     born: usize,
     tag: u8,
     /// external mappings are owned by the harness
     external: Option<(usize, usize)>,
     #[cfg(feature = "xen")]
-    grant_index: Option<(u64, u32)>,
+    grant_index: Option<(u64, u32, usize)>, // device index, pages, position in the device log
 }
 
 struct World {
     handles: Vec<Handle>,
     insts: Vec<Inst>, // slot = index
     log: Vec<MapEvent>,
+    /// region size used instead of the per-slot default (size sweep)
+    size_override: Option<usize>,
     #[cfg(feature = "xen")]
     emu: crate::xen_emu::Emu,
     #[cfg(feature = "xen")]
@@ -89,6 +93,7 @@ impl World {
             handles: Vec::new(),
             insts: Vec::new(),
             log: Vec::new(),
+            size_override: None,
             #[cfg(feature = "xen")]
             emu: crate::xen_emu::Emu::new(0x500),
             #[cfg(feature = "xen")]
@@ -116,10 +121,11 @@ impl World {
 
     fn create(&mut self, kind: Kind) -> Result<(), String> {
         let slot = self.insts.len();
-        let size = size_of_slot(slot);
+        let size = self.size_override.unwrap_or_else(|| size_of_slot(slot));
         let base = GuestAddress(0x10_0000 * (slot as u64 + 1));
         let tag = 0x40 + slot as u8;
         self.sync_log();
+        let log_start = self.log.len();
         let mut external = None;
         #[cfg(feature = "xen")]
         let mut grant_index = None;
@@ -129,7 +135,7 @@ impl World {
             #[cfg(not(feature = "xen"))]
             Kind::OwnedFile => {
                 let f = crate::layouts::tempfile().unwrap();
-                f.set_len(SIZE as u64).unwrap();
+                f.set_len(SIZE.max(size) as u64).unwrap();
                 GuestRegionMmap::from_range(base, size, Some(vm_memory::FileOffset::new(f, 0))).map_err(|e| format!("{:?}", e))?
             }
             #[cfg(not(feature = "xen"))]
@@ -168,8 +174,19 @@ impl World {
             Kind::XenGrant => {
                 let first_page = 0x100 * (slot as u64 + 1); // guest address 0x10_0000 * (slot + 1)
                 // the guest address of a grant region decides its grant references
+                self.emu.take_log();
                 let r = self.emu.grant_region(first_page, SIZE, false)?;
-                grant_index = Some((first_page * 4096, 2));
+                // the device chose the index of the window
+                let evs = self.emu.take_log();
+                self.devlog.extend(evs.iter().cloned());
+                let made: Vec<u64> = evs.iter().filter_map(|e| match e {
+                    crate::xen_emu::DevEvent::MapGrant { index, first_ref, count: 2, ok: true } if *first_ref as u64 == first_page => Some(*index),
+                    _ => None,
+                }).collect();
+                if made.len() != 1 {
+                    return Err(format!("grant region creation made {} map requests", made.len()));
+                }
+                grant_index = Some((made[0], 2, self.devlog.len()));
                 // re-base to the slot's guest address is not possible for grant regions; keep the device address
                 let _ = base;
                 r
@@ -188,6 +205,7 @@ impl World {
             // grant / foreign mappings are made in whole pages and are created with SIZE bytes here
             map_len: if matches!(kind, Kind::XenGrant | Kind::XenForeign) { SIZE } else { size },
             ptr: region.as_ptr() as usize,
+            log_start,
             born,
             tag,
             external,
@@ -388,11 +406,62 @@ impl World {
                     }
                 }
                 #[cfg(feature = "xen")]
-                if let Some((index, count)) = inst.grant_index {
-                    let n = self.devlog.iter().filter(|e| matches!(e, crate::xen_emu::DevEvent::UnmapGrant { index: i, count: c, ok: true } if *i == index && *c == count)).count();
+                if let Some((index, count, dev_born)) = inst.grant_index {
+                    // (the device hands a released index out again)
+                    let n = self.devlog[dev_born..].iter().take_while(|e| !matches!(e, crate::xen_emu::DevEvent::MapGrant { index: i, ok: true, .. } if *i == index)).filter(|e| matches!(e, crate::xen_emu::DevEvent::UnmapGrant { index: i, count: c, ok: true } if *i == index && *c == count)).count();
                     if n != 1 {
                         return Err((format!("{}/grant-not-released-exactly-once", kind), format!("slot {}: {} unmap-grant requests for index {:#x} count {}", slot, n, index, count)));
                     }
+                }
+            }
+        }
+        // address-space accounting: replay the whole mapping log; every page the library mapped
+        // while creating a region belongs to that region, and once its last owner is gone none
+        // of them may still be mapped (whatever the library mapped around the region counts)
+        {
+            let pg = |x: usize| (x + 4095) / 4096 * 4096;
+            let mut space: Vec<(usize, usize, Option<usize>)> = Vec::new(); // [start, end) -> slot
+            let cut = |space: &mut Vec<(usize, usize, Option<usize>)>, a: usize, b: usize| {
+                let mut out = Vec::with_capacity(space.len() + 1);
+                for &(s, e, o) in space.iter() {
+                    if e <= a || b <= s {
+                        out.push((s, e, o));
+                    } else {
+                        if s < a {
+                            out.push((s, a, o));
+                        }
+                        if b < e {
+                            out.push((b, e, o));
+                        }
+                    }
+                }
+                *space = out;
+            };
+            for (i, e) in self.log.iter().enumerate() {
+                match e {
+                    MapEvent::Map { addr, len, ok: true, .. } => {
+                        let owner = self.insts.iter().position(|x| x.log_start <= i && i < x.born);
+                        cut(&mut space, *addr, pg(*addr + *len));
+                        space.push((*addr, pg(*addr + *len), owner));
+                    }
+                    MapEvent::Unmap { addr, len, ret: 0 } => cut(&mut space, *addr, pg(*addr + *len)),
+                    _ => {}
+                }
+            }
+            for (slot, inst) in self.insts.iter().enumerate() {
+                if !inst.kind.owned() {
+                    continue;
+                }
+                let mine: Vec<(usize, usize)> = space.iter().filter(|x| x.2 == Some(slot)).map(|x| (x.0, x.1)).collect();
+                let bytes: usize = mine.iter().map(|x| x.1 - x.0).sum();
+                if alive.contains(&slot) {
+                    let want = (inst.ptr / 4096 * 4096, pg(inst.ptr + inst.map_len));
+                    let covered: usize = mine.iter().map(|x| x.1.min(want.1).saturating_sub(x.0.max(want.0))).sum();
+                    if covered != want.1 - want.0 {
+                        return Err((format!("{:?}/partly-unmapped-while-an-owner-is-alive", inst.kind), format!("slot {}: only {:#x} of the {:#x} bytes of the region are still mapped", slot, covered, want.1 - want.0)));
+                    }
+                } else if bytes != 0 {
+                    return Err((format!("{:?}/address-space-leaked", inst.kind), format!("slot {} (size {:#x}) has no owner left, but {:#x} bytes the library mapped while creating it are still mapped: {:x?}", slot, inst.map_len, bytes, mine)));
                 }
             }
         }
@@ -569,9 +638,105 @@ fn explore(ctx: &Ctx, kinds: &[Kind], depth: usize, max_handles: usize) {
     ctx.extra("max_depth_reached", json!(max_depth));
 }
 
+/// Size sweep: the same life cycles for region sizes from one byte to tens of MiB, page multiples
+/// and not, around the 2 MiB huge-page size; all drop orders of the owners of one region.
+fn size_sweep(ctx: &Ctx, kinds: &[Kind], thorough: bool) {
+    const M: usize = 1 << 20;
+    let mut sizes = vec![1usize, 4095, 4096, 4097, M + 1, 2 * M - 1, 2 * M, 2 * M + 1, 2 * M + 0x800, 3 * M + 0x800, 4 * M, 6 * M + 4095, 32 * M + 1];
+    if thorough {
+        sizes.extend([2 * M - 4096, 2 * M + 4096, 4 * M - 1, 4 * M + 1, 8 * M + 0x1800, 64 * M + 0x800, 1024 * M + 1]);
+    }
+    // owners: region handle (h0), map (h1), clone (h2), atomic (h3), snapshot (h4), removed handle
+    let prefix = |k: Kind| vec![Op::Create(k), Op::Build(vec![0]), Op::CloneMap(1), Op::MakeAtomic(1), Op::Snapshot(3)];
+    let mut runs = 0u64;
+    for &k in kinds {
+        if !k.owned() || matches!(k, Kind::XenGrant | Kind::XenForeign) {
+            continue;
+        }
+        for &size in &sizes {
+            // every order of dropping the five owners: 5! = 120 (quick: 5 rotations + remove first)
+            let mut orders: Vec<Vec<usize>> = Vec::new();
+            let mut perm: Vec<usize> = (0..5).collect();
+            fn heap(k: usize, a: &mut Vec<usize>, out: &mut Vec<Vec<usize>>) {
+                if k == 1 {
+                    out.push(a.clone());
+                    return;
+                }
+                for i in 0..k {
+                    heap(k - 1, a, out);
+                    if k % 2 == 0 {
+                        a.swap(i, k - 1);
+                    } else {
+                        a.swap(0, k - 1);
+                    }
+                }
+            }
+            heap(5, &mut perm, &mut orders);
+            if !thorough {
+                orders = orders.into_iter().step_by(17).collect();
+            }
+            for (oi, order) in orders.iter().enumerate() {
+                let mut hist = prefix(k);
+                if oi % 2 == 1 {
+                    hist.push(Op::Remove { map: 1, slot: 0 }); // pushes a map without the region and the removed handle
+                }
+                // drop the five owners in this order (indices shift as handles are removed)
+                let mut live: Vec<usize> = (0..5).collect();
+                for &o in order {
+                    let pos = live.iter().position(|x| *x == o).unwrap();
+                    hist.push(Op::Drop(pos));
+                    live.remove(pos);
+                }
+                runs += 1;
+                ctx.case(true);
+                start_recording();
+                let mut w = World::new();
+                w.size_override = Some(size);
+                let describe = || ("C12/size-sweep".to_string(), format!("size {:#x} {:?}", size, hist), json!({"size": size, "history": format!("{:?}", hist)}));
+                let mut failed = false;
+                let r = crate::crash::guarded(ctx, &describe, || {
+                    for op in hist.iter() {
+                        match w.apply(op) {
+                            Ok(_) => {}
+                            Err(e) => {
+                                // a size the OS refuses is not a violation
+                                if !matches!(op, Op::Create(_)) {
+                                    ctx.fail("C12/operation-refused", &format!("size {:#x}: {:?} in {:?}: {}", size, op, hist, e), json!({"size": size, "history": format!("{:?}", hist)}));
+                                }
+                                failed = true;
+                                break;
+                            }
+                        }
+                        if let Err((key, d)) = w.check() {
+                            ctx.fail(&format!("C12/{}", key), &format!("size {:#x}, after {:?} of {:?}: {}", size, op, hist, d), json!({"size": size, "history": format!("{:?}", hist)}));
+                            failed = true;
+                            break;
+                        }
+                    }
+                });
+                if r.is_none() {
+                    stop_recording();
+                    continue;
+                }
+                if failed {
+                    let _ = w.finish();
+                    continue;
+                }
+                if let Err((key, d)) = w.finish() {
+                    ctx.fail(&format!("C12/{}", key), &format!("size {:#x}, after {:?} and dropping all handles: {}", size, hist, d), json!({"size": size, "history": format!("{:?}", hist), "then": "drop all"}));
+                }
+            }
+        }
+    }
+    ctx.add_transitions(runs);
+    ctx.add_traces(runs);
+    ctx.extra("size_sweep_histories", json!(runs));
+    ctx.extra("size_sweep_sizes", json!(sizes));
+}
+
 pub fn run(tier: Tier, replay: Option<String>) -> i32 {
     let ctx = crate::new_ctx("C12", tier, "model_checking", &replay);
-    ctx.set_rule("E1: BFS over all histories up to the depth bound of {create region (owned anonymous / owned file-backed / external raw / external raw file-backed; Xen build: UNIX, grant in advance, foreign on the emulated devices), build a map from any subset of region handles, insert, remove (yields a removed-region handle), clone map, wrap in GuestMemoryAtomic, snapshot, clone handle, drop ANY live handle}; state = owner graph (which handle keeps which region alive), each frontier state is rebuilt by replaying its history on the real objects with mmap/munmap (and the grant ioctls) recorded through link-time interposition. After every step: a region with an owner has not been passed to munmap and is readable; a region whose last owner went away was munmap'ed exactly once with exactly its mapped length (grant: plus exactly one matching unmap ioctl); external mappings are never unmapped; at the end of every history all remaining handles are dropped and the same invariant is checked.");
+    ctx.set_rule("E1: BFS over all histories up to the depth bound of {create region (owned anonymous / owned file-backed / external raw / external raw file-backed; Xen build: UNIX, grant in advance, foreign on the emulated devices), build a map from any subset of region handles, insert, remove (yields a removed-region handle), clone map, wrap in GuestMemoryAtomic, snapshot, clone handle, drop ANY live handle}; state = owner graph (which handle keeps which region alive), each frontier state is rebuilt by replaying its history on the real objects with mmap/munmap (and the grant ioctls) recorded through link-time interposition. After every step: a region with an owner has not been passed to munmap and is readable; a region whose last owner went away was munmap'ed exactly once with exactly its mapped length (grant: plus exactly one matching unmap ioctl); external mappings are never unmapped; at the end of every history all remaining handles are dropped and the same invariant is checked. Address-space accounting: the whole mapping log is replayed after every step; every page the library mapped while creating a region is attributed to it, all pages of a region with an owner must still be mapped, and none of the pages attributed to a region without owners may remain. Size sweep: the life cycle {create, build, clone, atomic, snapshot, optional remove} followed by the drop orders of the five owners for owned regions of 1 byte .. 32 MiB+1 (thorough: .. 1 GiB+1; page multiples and not, around the 2 MiB huge-page size), same invariants.");
     ctx.assume("the 'programs' half of the property (accessors cannot outlive their parent) is decided by the compile-fail grid in tools/cfail.py and rests on Rust's borrow checker");
     if ctx.replay_of.is_some() {
         println!("replay: deterministic search; re-running it");
@@ -586,6 +751,7 @@ pub fn run(tier: Tier, replay: Option<String>) -> i32 {
     #[cfg(feature = "xen")]
     let kinds = [Kind::XenUnix, Kind::XenGrant, Kind::XenForeign];
     explore(&ctx, &kinds, if thorough { 7 } else { 6 }, if thorough { 6 } else { 5 });
+    size_sweep(&ctx, &kinds, thorough);
     ctx.set_exhaustive(true);
     ctx.finish()
 }
